@@ -102,9 +102,20 @@ def idmap(spec, tr):
     m = {}
     for _, r in tr.delivered():
         m.setdefault(r["name"], set()).add(r["id"])
+    # spans that are never delivered (unsampled, cancelled, still open) are only known through the contexts that name
+    # them; a delivered record is authoritative, a context observation must not add a second id for its name
+    seen = set(m)
+    # (`enter_on_poll` records one span per poll under one name: such a name denotes several spans, delivered or not)
+    for l in tr.lines:
+        w = l.split()
+        if len(w) >= 5 and w[1] == "adNew" and w[3] == "enterOnPoll":
+            try:
+                seen.discard(bytes.fromhex(w[4]).decode("utf-8", "replace"))
+            except ValueError:
+                pass
     for pos, exp in spec.ctx_obs:
         got = tr.ctx.get(pos)
-        if exp is not None and got is not None and exp[1][0] == "span":
+        if exp is not None and got is not None and exp[1][0] == "span" and exp[1][1] not in seen:
             m.setdefault(exp[1][1], set()).add(got[1])
     return m
 
